@@ -315,23 +315,40 @@ fn too_deep(c: &Comps) -> bool {
     joined_len(c) >= PATH_MAX - 1
 }
 
+/// The path, as the kernel would resolve it for open(2), names a fifo (or another special
+/// file): opening it blocks the single-threaded worker forever.
+fn opens_special(t: &Tree, path: &[u8]) -> bool {
+    match t.parse(path) {
+        Ok(p) => matches!(t.resolve_comps(&p, true), Ok((_, k)) if would_block(k)),
+        Err(_) => false,
+    }
+}
+
 pub fn predict(t: &Tree, op: &ROp) -> Pred {
+    let opened: Vec<&Vec<u8>> = match op {
+        ROp::Write { p, .. } | ROp::Read { p } | ROp::ReadToString { p } | ROp::ReadDir { p } | ROp::RemoveDirAll { p } => vec![p],
+        ROp::Copy { src, dst, .. } => vec![src, dst],
+        _ => vec![],
+    };
+    if opened.iter().any(|p| opens_special(t, p)) {
+        return Pred::Skip("skip:would-block");
+    }
     match op {
         ROp::Read { p } | ROp::ReadToString { p } => {
             let mut info = Info { len: p.len(), ..Info::default() };
             let parsed = match t.parse(p) {
                 Ok(x) => x,
-                Err(RErr::Unknown) => return Pred::Skip("outside-model"),
+                Err(RErr::Unknown) => return Pred::Skip("skip:outside-model"),
                 Err(_) => return run(None, false, info),
             };
             info.ncomp = parsed.comps.len();
             info.nsep = parsed.nsep;
             match t.resolve_comps(&parsed, true) {
-                Err(RErr::Unknown) => Pred::Skip("outside-model"),
+                Err(RErr::Unknown) => Pred::Skip("skip:outside-model"),
                 Err(_) => run(None, false, info),
                 Ok((c, k)) => {
                     if would_block(k) {
-                        return Pred::Skip("would-block");
+                        return Pred::Skip("skip:would-block");
                     }
                     info.canon = c;
                     info.kind = Some(k);
@@ -351,13 +368,13 @@ pub fn predict(t: &Tree, op: &ROp) -> Pred {
             let mut info = Info { len: p.len(), ..Info::default() };
             let parsed = match t.parse(p) {
                 Ok(x) => x,
-                Err(RErr::Unknown) => return Pred::Skip("outside-model"),
+                Err(RErr::Unknown) => return Pred::Skip("skip:outside-model"),
                 Err(_) => return run(None, false, info),
             };
             info.ncomp = parsed.comps.len();
             info.nsep = parsed.nsep;
             match t.resolve_comps(&parsed, true) {
-                Err(RErr::Unknown) => Pred::Skip("outside-model"),
+                Err(RErr::Unknown) => Pred::Skip("skip:outside-model"),
                 Err(RErr::NoEnt) => {
                     info.kind = Some(Kind::Absent);
                     // exists: documented to answer false; metadata: Err expected
@@ -379,17 +396,17 @@ pub fn predict(t: &Tree, op: &ROp) -> Pred {
             let mut info = Info { len: p.len(), ..Info::default() };
             let parsed = match t.parse(p) {
                 Ok(x) => x,
-                Err(RErr::Unknown) => return Pred::Skip("outside-model"),
+                Err(RErr::Unknown) => return Pred::Skip("skip:outside-model"),
                 Err(_) => return run(None, false, info),
             };
             info.ncomp = parsed.comps.len();
             info.nsep = parsed.nsep;
             match t.resolve_comps(&parsed, true) {
-                Err(RErr::Unknown) => Pred::Skip("outside-model"),
+                Err(RErr::Unknown) => Pred::Skip("skip:outside-model"),
                 Err(_) => run(None, false, info),
                 Ok((c, k)) => {
                     if would_block(k) {
-                        return Pred::Skip("would-block");
+                        return Pred::Skip("skip:would-block");
                     }
                     info.canon = c;
                     info.kind = Some(k);
@@ -405,7 +422,7 @@ pub fn predict(t: &Tree, op: &ROp) -> Pred {
             let mut info = Info { len: p.len(), ..Info::default() };
             let parsed = match t.parse(p) {
                 Ok(x) => x,
-                Err(RErr::Unknown) => return Pred::Skip("outside-model"),
+                Err(RErr::Unknown) => return Pred::Skip("skip:outside-model"),
                 Err(_) => return run(None, false, info),
             };
             info.ncomp = parsed.comps.len();
@@ -414,14 +431,14 @@ pub fn predict(t: &Tree, op: &ROp) -> Pred {
             // not spelled out in the documentation: executed, not predicted
             let nofollow = t.resolve_comps(&Parsed { comps: parsed.comps.clone(), trailing: false, nsep: parsed.nsep }, false);
             match t.resolve_comps(&parsed, true) {
-                Err(RErr::Unknown) => Pred::Skip("outside-model"),
+                Err(RErr::Unknown) => Pred::Skip("skip:outside-model"),
                 Err(_) => run(None, false, info),
                 Ok((c, k)) => {
                     if would_block(k) {
-                        return Pred::Skip("would-block");
+                        return Pred::Skip("skip:would-block");
                     }
                     if too_deep(&c) {
-                        return Pred::Skip("too-deep");
+                        return Pred::Skip("skip:too-deep");
                     }
                     info.canon = c.clone();
                     info.kind = Some(k);
@@ -440,7 +457,7 @@ pub fn predict(t: &Tree, op: &ROp) -> Pred {
         ROp::Copy { src, dst, .. } => {
             let mut info = Info { len: dst.len(), ..Info::default() };
             let (ps, pd) = match (t.parse(src), t.parse(dst)) {
-                (Err(RErr::Unknown), _) | (_, Err(RErr::Unknown)) => return Pred::Skip("outside-model"),
+                (Err(RErr::Unknown), _) | (_, Err(RErr::Unknown)) => return Pred::Skip("skip:outside-model"),
                 (Ok(a), Ok(b)) => (a, b),
                 _ => return run(None, false, info),
             };
@@ -449,25 +466,25 @@ pub fn predict(t: &Tree, op: &ROp) -> Pred {
             let rs = t.resolve_comps(&ps, true);
             let rd = t.resolve_comps(&pd, true);
             if matches!(rs, Err(RErr::Unknown)) || matches!(rd, Err(RErr::Unknown)) {
-                return Pred::Skip("outside-model");
+                return Pred::Skip("skip:outside-model");
             }
             if let Ok((_, k)) = &rs {
                 if would_block(*k) {
-                    return Pred::Skip("would-block");
+                    return Pred::Skip("skip:would-block");
                 }
             }
             if let Ok((c, k)) = &rd {
                 if would_block(*k) {
-                    return Pred::Skip("would-block");
+                    return Pred::Skip("skip:would-block");
                 }
                 if too_deep(c) {
-                    return Pred::Skip("too-deep");
+                    return Pred::Skip("skip:too-deep");
                 }
             }
             if let (Ok((cs, _)), Ok((cd, _))) = (&rs, &rd) {
                 if cs == cd {
                     // no post-condition is defined for copying a file onto itself
-                    return Pred::Skip("copy-onto-itself");
+                    return Pred::Skip("skip:copy-onto-itself");
                 }
             }
             let nofollow = t.resolve_comps(&Parsed { comps: pd.comps.clone(), trailing: false, nsep: pd.nsep }, false);
@@ -500,18 +517,18 @@ pub fn predict(t: &Tree, op: &ROp) -> Pred {
             let mut info = Info { len: p.len(), ..Info::default() };
             let parsed = match t.parse(p) {
                 Ok(x) => x,
-                Err(RErr::Unknown) => return Pred::Skip("outside-model"),
+                Err(RErr::Unknown) => return Pred::Skip("skip:outside-model"),
                 Err(_) => return run(None, false, info),
             };
             info.ncomp = parsed.comps.len();
             info.nsep = parsed.nsep;
             let nf = Parsed { comps: parsed.comps.clone(), trailing: false, nsep: parsed.nsep };
             match t.resolve_comps(&nf, false) {
-                Err(RErr::Unknown) => Pred::Skip("outside-model"),
+                Err(RErr::Unknown) => Pred::Skip("skip:outside-model"),
                 Err(_) => run(None, false, info),
                 Ok((c, Kind::Absent)) => {
                     if too_deep(&c) {
-                        return Pred::Skip("too-deep");
+                        return Pred::Skip("skip:too-deep");
                     }
                     info.canon = c.clone();
                     let mut e = t.clone();
@@ -525,7 +542,7 @@ pub fn predict(t: &Tree, op: &ROp) -> Pred {
             let mut info = Info { len: p.len(), ..Info::default() };
             let parsed = match t.parse(p) {
                 Ok(x) => x,
-                Err(RErr::Unknown) => return Pred::Skip("outside-model"),
+                Err(RErr::Unknown) => return Pred::Skip("skip:outside-model"),
                 Err(_) => return run(None, false, info),
             };
             info.ncomp = parsed.comps.len();
@@ -537,7 +554,7 @@ pub fn predict(t: &Tree, op: &ROp) -> Pred {
                 // a symlink as the component itself: followed when something is behind it
                 let nofollow = e.resolve_comps(&pre, false);
                 match e.resolve_comps(&pre, true) {
-                    Err(RErr::Unknown) => return Pred::Skip("outside-model"),
+                    Err(RErr::Unknown) => return Pred::Skip("skip:outside-model"),
                     Err(_) => {
                         ok = false;
                         break;
@@ -554,7 +571,7 @@ pub fn predict(t: &Tree, op: &ROp) -> Pred {
                             break;
                         }
                         if too_deep(&c) {
-                            return Pred::Skip("too-deep");
+                            return Pred::Skip("skip:too-deep");
                         }
                         e.nodes.insert(c.clone(), Node::Dir);
                         info.created += 1;
@@ -579,7 +596,7 @@ pub fn predict(t: &Tree, op: &ROp) -> Pred {
             let mut info = Info { len: p.len(), ..Info::default() };
             let parsed = match t.parse(p) {
                 Ok(x) => x,
-                Err(RErr::Unknown) => return Pred::Skip("outside-model"),
+                Err(RErr::Unknown) => return Pred::Skip("skip:outside-model"),
                 Err(_) => return run(None, false, info),
             };
             info.ncomp = parsed.comps.len();
@@ -587,11 +604,11 @@ pub fn predict(t: &Tree, op: &ROp) -> Pred {
             let trailing = parsed.trailing;
             let nf = Parsed { comps: parsed.comps, trailing: false, nsep: parsed.nsep };
             match t.resolve_comps(&nf, false) {
-                Err(RErr::Unknown) => Pred::Skip("outside-model"),
+                Err(RErr::Unknown) => Pred::Skip("skip:outside-model"),
                 Err(_) => run(None, false, info),
                 Ok((c, k)) => {
                     if c.is_empty() {
-                        return Pred::Skip("case-root");
+                        return Pred::Skip("skip:case-root");
                     }
                     info.canon = c.clone();
                     info.kind = Some(k);
@@ -609,18 +626,18 @@ pub fn predict(t: &Tree, op: &ROp) -> Pred {
             let mut info = Info { len: p.len(), ..Info::default() };
             let parsed = match t.parse(p) {
                 Ok(x) => x,
-                Err(RErr::Unknown) => return Pred::Skip("outside-model"),
+                Err(RErr::Unknown) => return Pred::Skip("skip:outside-model"),
                 Err(_) => return run(None, false, info),
             };
             info.ncomp = parsed.comps.len();
             info.nsep = parsed.nsep;
             let nf = Parsed { comps: parsed.comps, trailing: false, nsep: parsed.nsep };
             match t.resolve_comps(&nf, false) {
-                Err(RErr::Unknown) => Pred::Skip("outside-model"),
+                Err(RErr::Unknown) => Pred::Skip("skip:outside-model"),
                 Err(_) => run(None, false, info),
                 Ok((c, k)) => {
                     if c.is_empty() {
-                        return Pred::Skip("case-root");
+                        return Pred::Skip("skip:case-root");
                     }
                     info.canon = c.clone();
                     info.kind = Some(k);
@@ -638,25 +655,25 @@ pub fn predict(t: &Tree, op: &ROp) -> Pred {
             let mut info = Info { len: p.len(), ..Info::default() };
             let parsed = match t.parse(p) {
                 Ok(x) => x,
-                Err(RErr::Unknown) => return Pred::Skip("outside-model"),
+                Err(RErr::Unknown) => return Pred::Skip("skip:outside-model"),
                 Err(_) => return run(None, false, info),
             };
             info.ncomp = parsed.comps.len();
             info.nsep = parsed.nsep;
             let nf = Parsed { comps: parsed.comps.clone(), trailing: false, nsep: parsed.nsep };
             match t.resolve_comps(&nf, false) {
-                Err(RErr::Unknown) => Pred::Skip("outside-model"),
+                Err(RErr::Unknown) => Pred::Skip("skip:outside-model"),
                 Err(_) => run(None, false, info),
                 Ok((c, k)) => {
                     if c.is_empty() {
-                        return Pred::Skip("case-root");
+                        return Pred::Skip("skip:case-root");
                     }
                     info.canon = c.clone();
                     info.kind = Some(k);
                     match k {
                         // path names a symlink (to a directory): behaviour is not documented
-                        Kind::Symlink => Pred::Skip("remove_dir_all-on-symlink"),
-                        Kind::Fifo | Kind::Other => Pred::Skip("would-block"),
+                        Kind::Symlink => Pred::Skip("skip:remove_dir_all-on-symlink"),
+                        Kind::Fifo | Kind::Other => Pred::Skip("skip:would-block"),
                         Kind::Dir => {
                             let d = t.descendants(&c);
                             info.removed_entries = d.len();
@@ -675,7 +692,7 @@ pub fn predict(t: &Tree, op: &ROp) -> Pred {
         ROp::Rename { src, dst } => {
             let mut info = Info { len: dst.len().max(src.len()), ..Info::default() };
             let (ps, pd) = match (t.parse(src), t.parse(dst)) {
-                (Err(RErr::Unknown), _) | (_, Err(RErr::Unknown)) => return Pred::Skip("outside-model"),
+                (Err(RErr::Unknown), _) | (_, Err(RErr::Unknown)) => return Pred::Skip("skip:outside-model"),
                 (Ok(a), Ok(b)) => (a, b),
                 _ => return run(None, false, info),
             };
@@ -686,13 +703,13 @@ pub fn predict(t: &Tree, op: &ROp) -> Pred {
             let rs = t.resolve_comps(&nfs, false);
             let rd = t.resolve_comps(&nfd, false);
             if matches!(rs, Err(RErr::Unknown)) || matches!(rd, Err(RErr::Unknown)) {
-                return Pred::Skip("outside-model");
+                return Pred::Skip("skip:outside-model");
             }
             let (Ok((cs, ks)), Ok((cd, kd))) = (rs, rd) else {
                 return run(None, false, info);
             };
             if cs.is_empty() || cd.is_empty() {
-                return Pred::Skip("case-root");
+                return Pred::Skip("skip:case-root");
             }
             info.canon = cs.clone();
             info.canon2 = cd.clone();
@@ -714,7 +731,7 @@ pub fn predict(t: &Tree, op: &ROp) -> Pred {
             // new location must stay walkable
             let deepest = t.descendants(&cs).iter().map(|k| joined_len(k) - joined_len(&cs)).max().unwrap_or(0);
             if joined_len(&cd) + deepest >= PATH_MAX - 1 {
-                return Pred::Skip("too-deep");
+                return Pred::Skip("skip:too-deep");
             }
             let plain = match (ks, kd) {
                 (_, Kind::Absent) => true,
